@@ -139,9 +139,11 @@ def build(f, cextra=None, sextra=None):
 class Scenario(object):
     """A flavour instantiated on a Pair, with the preparatory connection(s)
     resumption flavours need."""
-    def __init__(self, f, case, cextra=None, sextra=None):
+    def __init__(self, f, case, cextra=None, sextra=None, ckw_extra=None, skw_extra=None):
         self.f = f
         self.b = build(f, cextra, sextra)
+        self.b["ckw"].update(ckw_extra or {})
+        self.b["skw"].update(skw_extra or {})
         self.pair = Pair(case)
         self.cache = None
         self.session = None
